@@ -5,12 +5,15 @@ PROP = {
     'streams': [{'name': 'resp', 'harness': 'umh_resp', 'driver': 'resp',
                  'timeout': {'quick': 600, 'thorough': 3000}}],
     'assumptions': [
-        'Values are in-memory Rust values: a bulk length fits i64 and Vec::with_capacity(len) of an array '
-        'does not overflow (Wf); line payloads (Simple/Error/Integer) contain no LF - the hypothesis of the '
-        'round trip, shown necessary by C15_roundtrip_needs_wf',
+        'Values are in-memory Rust values: bulk and array lengths fit i64 (Wf); line payloads '
+        '(Simple/Error/Integer) contain no LF - the hypothesis of the round trip, shown necessary by '
+        'C15_roundtrip_needs_wf; arrays (nil ones included) are nested at most MAX_NESTING = 128 deep '
+        '(NestOk 0 v, C15_nesting_bound) - deeper values are rejected by design (C15_nesting)',
         'btoi 0.4.2 grammar as transliterated in UmModel/Bytes.lean (differentially checked on every run)',
-        'Vec::<RespIndex>::with_capacity(n) either panics with `capacity overflow` (n*32 > isize::MAX, modelled; '
-        'size_of checked by op `sizeof`) or succeeds: allocation failure (abort) is outside the model (F4, C16)',
+        'parse_array reserves min(array_size, bytes remaining) elements (generated switch capRemaining): the '
+        'model has no panic there, assuming buf.len() * size_of::<RespIndex>() <= isize::MAX (buffers below '
+        '2^58 bytes); for a tree without the cap the capacity-overflow panic is modelled (n*32 > isize::MAX, '
+        'size_of checked by op `sizeof`) and allocation failure (abort) is outside the model (F4, C16)',
         'FramedRead is modelled by hand: append the read, call decode until Ok(None), stop at the first Err; '
         'decode_eof is not modelled',
     ],
@@ -23,8 +26,10 @@ PROP = {
         'packets when a later one is incomplete (C15_static_multi_loses, finding F15a; no caller in the crate)',
     ],
     'trusted': [
-        'tools/extract_resp.py: detection of the terminator checks in stateless.rs (strictTerm) and the type '
-        'bytes / nil encodings (a wrong detection shows as a model/implementation disagreement)',
+        'tools/extract_resp.py: detection of the terminator checks (strictTerm), of the nesting limit '
+        '(maxNesting = MAX_NESTING, shape of parse_resp_nested / parse_array_nested), of the capped reservation '
+        '(capRemaining) and the type bytes / nil encodings (a wrong detection shows as a model/implementation '
+        'disagreement; an unknown shape stops the extractor)',
         'the reference RESP recogniser inside umh_resp (oracle for the strictness clause)',
     ],
     'search_s': 120,
@@ -36,23 +41,25 @@ CHECK = {
                  'differential correspondence (real undermoon::protocol vs compiled Lean model)',
     'text': 'Proved for the index parser of stateless.rs, encode_resp, IndexedResp/RespVec decode, the '
             'decode-until-None loop over RespCodec and the OptionalMultiPacketDecoder hint machine, for both '
-            'variants of the terminator checks: (roundtrip) decode(encode v ++ rest) = v consuming exactly '
-            'encode v for every frameable value; (prefix) every strict prefix of an encoding answers Ok(None) '
+            'variants of the terminator checks and every setting of the nesting limit / reservation policy: '
+            '(roundtrip) decode(encode v ++ rest) = v consuming exactly encode v for every frameable value '
+            'nested at most MAX_NESTING deep; (nesting) everything decoded is within the limit and a deeper '
+            'value is rejected; (no panic) with the capped reservation no decode call panics; (prefix) every strict prefix of an encoding answers Ok(None) '
             'and leaves the buffer; (extension) a verdict other than Ok(None) never changes when bytes are '
             'appended; (chunking) packets, error position and left-over buffer depend only on the '
             'concatenation of the reads; (forward) packets ++ left-over = bytes read, each packet resolves '
             'without panic to the value its bytes spell; (multi) the hint machine returns exactly the first n '
             'replies in order, independent of chunking; (strict) decoded bytes are in the grammar Accepts. '
-            'The full strictness clause is proved for the tree with the proposed fix and refuted for the '
-            'pinned tree (F7: "+OK\\n" decodes to Simple "O"; "$3\\r\\nabcXY" to Bulk "abc"). The model is '
-            'tied to the code by generated constants (type bytes, nil encodings, presence of the terminator '
-            'checks) and by running the real parser/decoder/codec/hint machine against the compiled model on '
+            'The full strictness clause (only CRLF terminators) holds for the current tree (F7 fixed) and is '
+            'refuted for a tree without the checks ("+OK\\n" decoded to Simple "O"). The model is tied to the '
+            'code by generated constants (type bytes, nil encodings, terminator checks, MAX_NESTING, capped '
+            'reservation) and by running the real parser/decoder/codec/hint machine against the compiled model on '
             'generated values (depth<=6, nil, empty, CR/LF payloads, <=64 KiB), every strict prefix and '
             'every split point of short streams, pipelines of 1-8 packets, mutated encodings and exhaustive '
             'short strings over {*,$,+,-,:,0,1,CR,LF}.',
     'note': 'Trusted: Lean kernel; hand transliteration of stateless.rs/encoder.rs/resp.rs/packet.rs '
             '(checked differentially, index trees included); FramedRead loop modelled by hand; allocation '
-            'failure of Vec::with_capacity outside the model (F4/C16: generators cap declared array lengths '
-            'at 999999 and nesting at 200). Known findings: F7 (terminators unchecked; fix in '
-            '.build/patches/f7.diff), F15a (stateless OptionalMulti::decode drops packets; dead code).',
+            'no-panic assumes buffers below 2^58 bytes. Findings: F7 fixed (08d356f); F4/F16b fixes (C16) are '
+            'followed by generated switches; F15a known (stateless OptionalMulti::decode drops packets; dead '
+            'code).',
 }
